@@ -1,55 +1,60 @@
 #!/usr/bin/env python3
-"""seed_summary.py RESULTS_DIR — copies the seeded defects (patch, demonstration, meta) from the sub-agents' output
-directories into /verif/seeded/<property>-<n>/, adds what was run and which checks flagged them, and prints the
-markdown table for DESIGN.md section 12."""
+"""seed_summary.py DIR=COMMIT [DIR=COMMIT ...] — copies every seeded defect (patch, demonstration, meta) from /tmp/mut/Cxx.out/mutN
+into /verif/seeded/<property>-<n>/ and records, from the newest seedtest result that covers it (later arguments win), which
+checks flagged it (with a failing input / only as a broken tie), the commit of /verif the run used, and what happened to
+it before the checks were strengthened. tools/seed_report.py prints the table of DESIGN.md section 12 from the result."""
 import sys, os, json, glob, shutil
-
 ROOT = os.path.dirname(os.path.dirname(os.path.abspath(__file__)))
-
+# what the first run over a seeded defect showed, where that differs from the final result
+BEFORE = {
+    'C19-1': 'missed by C19 at 498200c (static graph had no implicit Drop edges; ro only covered the observer API): added ro_step and drop-glue edges',
+    'C20-2': 'missed by every check at 498200c (needs a tombstone-clogged table at a 7/8-of-a-power-of-two length): added the clog sweep',
+    'C13-1': 'reported only as a broken tie (cap) at 498200c: added the growth clause of the monitor',
+    'C06-3': 'missed (owning iterators were never advanced with nth/skip/step_by): added the f/b pattern letters',
+    'C15-3': 'missed (needs a key type without and a value type with drop glue): added the type instantiations pd/dp/df/dn',
+    'C12-4': 'missed (override of the by-value method last() was never called: &mut I resolves to the default): the pattern runner now owns the iterator',
+    'C04-3': 'missed (needs a &str lookup aliasing a stored String key under colliding hashers): added the directed scenario c04_alias_prefix',
+    'C10-4': 'not detected, by decision: manifests only with a size estimator that returns different values for the same unchanged value (outside the properties; DESIGN 0.2)',
+}
 def main():
-    resdir = sys.argv[1] if len(sys.argv) > 1 else '/root/seedres'
+    runs = []
+    for a in sys.argv[1:]:
+        d, _, c = a.partition('=')
+        runs.append((d, c or '?'))
     confirm = {}
-    cpath = os.path.join(resdir, 'confirm.json')
-    if os.path.exists(cpath): confirm = json.load(open(cpath))
-    rows = []
-    for f in sorted(glob.glob(os.path.join(resdir, 'tmp_mut_*.json'))):
-        r = json.load(open(f))
-        mdir = r['mutation']
-        target = r.get('target') or r.get('meta', {}).get('property')
-        n = os.path.basename(mdir.rstrip('/')).replace('mut', '')
-        sid = '%s-%s' % (target, n)
+    for cpath in ('/root/confirm_all.json',):
+        if os.path.exists(cpath): confirm.update(json.load(open(cpath)))
+    for mdir in sorted(glob.glob('/tmp/mut/C??.out/mut*')):
+        prop = os.path.basename(os.path.dirname(mdir))[:3]
+        n = os.path.basename(mdir).replace('mut', '')
+        sid = '%s-%s' % (prop, n)
+        res = None; commit = None
+        for d, c in runs:
+            f = os.path.join(d, 'tmp_mut_%s.out_mut%s.json' % (prop, n))
+            if os.path.exists(f): res = json.load(open(f)); commit = c
         dst = os.path.join(ROOT, 'seeded', sid)
         os.makedirs(dst, exist_ok=True)
         for name in ('patch.diff', 'demo.rs'):
-            src = os.path.join(mdir, name)
-            if os.path.exists(src): shutil.copy(src, os.path.join(dst, name))
-        meta = dict(r.get('meta', {}))
-        flagged = r.get('flagged_by', [])
-        meta.update(dict(
-            property=target,
-            breaks=target,
-            needs=meta.get('needs'),
-            confirmed=confirm.get(sid, 'patch applies to /repo HEAD; see ran'),
-            ran_by_subagent=meta.get('ran'),
-            ran_here=['git -C /repo apply seeded/%s/patch.diff ; every quick_cmd of MANIFEST.json (VERIF_SEED=7) ; git -C /repo checkout -- .' % sid],
-            flagged_by=flagged, detected_by_target_check=r.get('target_detected'),
-            violations_of_target=(r['checks'].get(target, {}).get('violations', [])[:3] if 'checks' in r else []),
-        ))
-        meta.pop('ran', None)
-        json.dump(meta, open(os.path.join(dst, 'meta.json'), 'w'), indent=1)
-        conc, tie = [], []
-        for pid_ in flagged:
-            vl = r.get('checks', {}).get(pid_, {}).get('violations', [])
-            (tie if vl and all('no-failing-input-found' in v for v in vl) else conc).append(pid_)
-        meta_path = os.path.join(dst, 'meta.json')
-        m2 = json.load(open(meta_path)); m2['flagged_with_failing_input'] = conc; m2['flagged_tie_only_no_failing_input_found'] = tie
-        json.dump(m2, open(meta_path, 'w'), indent=1)
-        rows.append((sid, target, (meta.get('summary') or '')[:110].replace('|', '/'), (meta.get('needs') or '')[:90].replace('|', '/'),
-                     'yes' if r.get('target_detected') else 'NO', (','.join(conc) or '-') + ((' ; tie only: ' + ','.join(tie)) if tie else '')))
-    print('| seeded | summary | needs | caught by its check | all checks that flag it |')
-    print('|---|---|---|---|---|')
-    for sid, target, summ, needs, det, fl in rows:
-        print('| %s | %s | %s | %s | %s |' % (sid, summ, needs, det, fl))
-
+            if os.path.exists(os.path.join(mdir, name)): shutil.copy(os.path.join(mdir, name), os.path.join(dst, name))
+        try: meta = json.load(open(os.path.join(mdir, 'meta.json')))
+        except Exception as ex: meta = dict(error=str(ex))
+        origin = meta.pop('origin', None)
+        rnd = '3' if origin else ('2' if n == '3' else '1')
+        out = dict(property=prop, breaks=prop, round=rnd, summary=meta.get('summary'), needs=meta.get('needs'),
+                   produced_by='a fresh sub-agent given only the property text' + (' and one dimension to exploit (%s)' % origin if origin else '') + ' and its own scratch worktree of /repo',
+                   confirmed=confirm.get(sid, None), ran_by_subagent=meta.get('ran'),
+                   ran_here=['git -C /repo apply seeded/%s/patch.diff ; every quick_cmd of MANIFEST.json (VERIF_SEED=7) ; git -C /repo checkout -- .' % sid])
+        if res is not None:
+            flagged = res.get('flagged_by', [])
+            conc, tie = [], []
+            for pid_ in flagged:
+                vl = res.get('checks', {}).get(pid_, {}).get('violations', [])
+                (tie if vl and all('no-failing-input-found' in v for v in vl) else conc).append(pid_)
+            out.update(run_commit=commit, flagged_by=flagged, flagged_with_failing_input=conc, flagged_tie_only_no_failing_input_found=tie,
+                       detected_by_target_check=res.get('target_detected'),
+                       violations_of_target=[v.replace('/root/.vp/runs/', 'run:') for v in res.get('checks', {}).get(prop, {}).get('violations', [])[:3]])
+        if sid in BEFORE: out['first_run_result'] = BEFORE[sid]
+        json.dump(out, open(os.path.join(dst, 'meta.json'), 'w'), indent=1)
+    print('seeded defects recorded:', len(glob.glob(os.path.join(ROOT, 'seeded', '*'))))
 if __name__ == '__main__':
     main()
